@@ -23,13 +23,17 @@ DOMAINS = {
              ("ctlfuncs._quiet", P("ctlfuncs._quiet"))],
     "end_callback": [("ctlfuncs.cb", P("ctlfuncs.cb"))],
     "cancel_callback": [("ctlfuncs.cb", P("ctlfuncs.cb"))],
-    "args": [("()", L("()")), ("(1,2)", L("(1,2)")), ("[3]", L("[3]"))],
-    "kwargs": [("{}", L("{}")), ("{'a':1}", L("{'a':1}"))],
+    "args": [("()", L("()")), ("(1,2)", L("(1,2)")), ("[3]", L("[3]")), ("('null','true')", L("('null','true')"))],
+    "kwargs": [("{}", L("{}")), ("{'a':1}", L("{'a':1}")), ("{'false':'null'}", L("{'false':'null'}"))],
+    "items": [("[1,2]", L("[1,2]")), ("()", L("()")), ("{'k':None}", L("{'k':None}"))],
+    "new_ratio": [("0.25", 0.25), ("2", 2.0), ("-1.5", -1.5), ("1e3", 1000.0)],
+    "function": [("fn", "fn")], "self_": INTS, "flag": [("", True)],
     "arg_iter": [("[1,2]", L("[1,2]")), ("[]", L("[]")), ("(5,)", L("(5,)"))],
     "args_iter": [("[(1,2),(3,4)]", L("[(1,2),(3,4)]")), ("[]", L("[]"))],
     "kwargs_iter": [("[{'a':1},{'a':2}]", L("[{'a':1},{'a':2}]")), ("[]", L("[]"))],
     "num": INTS, "num_concurrent": [("0", 0), ("1", 1), ("2", 2)], "value": INTS, "number": INTS,
-    "group_name": [("g1", "g1"), ("gx", "gx"), ("a\tb", "a\tb")], "msg": [("hello", "hello")], "label": [("lbl", "lbl")],
+    "group_name": [("g1", "g1"), ("gx", "gx"), ("a\tb", "a\tb"), ("e\u0301\u212b", "e\u0301\u212b")],     # (the last one is not in NFC form)
+    "msg": [("hello", "hello")], "label": [("lbl", "lbl")],
     "f": INTS, "el": [("kg", "kg")], "level": INTS, "limit": INTS,
     "task_ids": [([], []), (["0"], [0]), (["0", "1"], [0, 1]), (["5"], [5]), (["0", "0"], [0, 0])],
     "group_names": [(["g1"], ["g1"]), (["g1", "start-group-0"], ["g1", "start-group-0"]), (["nosuch"], ["nosuch"]),
@@ -68,7 +72,7 @@ def command_table(cls):
         elif isinstance(member, property):
             c = {"name": dashed(name), "member": name, "kind": "prop", "params": [], "settable": member.fset is not None}
             if member.fset is not None:
-                c["params"] = [{"name": "value", "kind": "propval"}]
+                c["params"] = [{"name": list(inspect.signature(member.fset).parameters)[1], "kind": "propval"}]
             out.append(c)
     return out
 
